@@ -3,6 +3,7 @@ package hist
 import (
 	"encoding/json"
 	"fmt"
+	"strings"
 
 	"pgregory.net/rapid"
 
@@ -23,6 +24,18 @@ type GenCfg struct {
 var tsChoices = []int{0, 0, 0, 1, 2, 4}
 
 func (e *Engine) genPattern(t *rapid.T) string {
+	// a write strictly below (or exactly a prefix of) a route that currently exists: the shapes where
+	// copy-on-write has to clone a node that already carries a route
+	if ks := e.current().Keys(); len(ks) > 0 && gen.Chance(t, 1, 5, "below") {
+		k := gen.Pick(t, ks, "parent")
+		// half of the time right below the key that was written last (same transaction, same cached nodes)
+		if _, ok := e.current()[e.LastKey]; ok && gen.Chance(t, 1, 2, "belowlast") {
+			k = e.LastKey
+		}
+		if !strings.Contains(k.P, "*{") || !strings.HasSuffix(k.P, "}") {
+			return strings.TrimSuffix(k.P, "/") + "/" + gen.Pick(t, gen.Statics, "childseg")
+		}
+	}
 	if len(e.Pool) > 0 && gen.IntR(t, 0, 9, "reuse") < 5 {
 		return gen.Pick(t, e.Pool, "pooled")
 	}
